@@ -125,6 +125,16 @@ CHECKS = {
             'returned: the answer must be 403/404 (or the next search path\'s file), never 500. If-Modified-Since at/after/before.',
             'symlink-free tree; faults are injected by patching the names clastic.static looks up (no hook); reads during body streaming are out of scope',
             'DESIGN.md §4 C14'),
+    'C13': ('exploration',
+            'complete response-kind x method x header-set product under wsgiref.validate plus an own call-count/type/close() recorder; Hypothesis-generated wsgi_wrapper stacks against an order model; generated RerouteWSGI targets with identity checks',
+            'Every response kind the framework produces (26 kinds, plain / gzip+cache processed / debug) x 4 methods x 4 header sets '
+            'runs under the standard library validator and a recorder (start_response exactly once before any body, status line, '
+            'str header pairs, bytes chunks, no body for HEAD, files closed after close()); generated stacks of wrapper middlewares '
+            '(embedding, unique type at two levels, no routes) must run in the modelled order; RerouteWSGI (endpoint, raised from '
+            'endpoint / middleware / render) must hand the same environ object with every original entry intact and relay '
+            'status, headers and body verbatim.',
+            '204/304 are checked by the own recorder only (the validator also enforces an HTTP recommendation about Content-Type there)',
+            'DESIGN.md §4 C13'),
 }
 
 PENDING_REASON = 'check not built yet in this session (planned, see DESIGN.md §4); not claimed until it runs quietly on the unchanged tree'
